@@ -106,6 +106,12 @@ POOL = [
     ("Literal[0,1,2,3,4]", "load", Literal[0, 1, 2, 3, 4], SCALARS),
     ("Literal[False,True,2,3,4]", "load", Literal[False, True, 2, 3, 4], SCALARS),
     ("Literal[IE.ZERO,IE.ONE]", "load", Literal[IE.ZERO, IE.ONE], SCALARS),
+    ("Literal[0,True]", "load", Literal[0, True], SCALARS), ("Literal[False,1]", "load", Literal[False, 1], SCALARS), ("Literal[True,0]", "load", Literal[True, 0], SCALARS),
+    ("Literal['x',0,True]", "load", Literal["x", 0, True], [*SCALARS, "x"]), ("Literal['x',False,True]", "load", Literal["x", False, True], [*SCALARS, "x"]),
+    ("Literal['x',0,1]", "load", Literal["x", 0, 1], [*SCALARS, "x"]), ("Literal[0]", "load", Literal[0], SCALARS), ("Literal[False]", "load", Literal[False], SCALARS),
+    ("Literal[1]", "load", Literal[1], SCALARS), ("Literal[True]", "load", Literal[True], SCALARS), ("Tuple[Lit[0,True],Lit[False,True]]", "load", Tuple[Literal[0, True], Literal[False, True]],
+                                                                                                 [[0, False], [False, False], [0, 0], [True, True], [True, 1]]),
+    ("dump:Literal[0,True]", "dump", Literal[0, True], [0, True]), ("dump:Literal[False,True]", "dump", Literal[False, True], [False, True]),
     ("Optional[Literal[0,1]]", "load", Optional[Literal[0, 1]], SCALARS),
     ("Optional[Literal[False,True]]", "load", Optional[Literal[False, True]], SCALARS),
     ("List[Literal[0,1]]", "load", List[Literal[0, 1]], [[0, 1], [False], [True, 0], [2]]),
@@ -265,7 +271,7 @@ def run_case(ctx, rng, idx):
         ctx.sample({"history": [h[0] for h in history], "probe": probe[0], "cfg": repr(cfg)})
     check_history(ctx, history, probe, cfg, "random")
     check_immutability(ctx, rng)
-    if idx % 3 == 0:
+    for _ in range(3):
         check_conversion_history(ctx, rng)
     if ctx.tier == "thorough" and idx % 10 == 0:
         check_lru_eviction(ctx, rng)
@@ -330,27 +336,59 @@ class D3:
 CONV_POOL = [(S1, D1), (S1, D3), (D1, S1), (S1, D2), (M1, M2), (M2, M1), (M1, MBool), (Rec, Rec)]
 
 
-def check_conversion_history(ctx, rng):
-    hist = [rng.choice(CONV_POOL) for _ in range(rng.randint(1, 6))]
-    probe = rng.choice(CONV_POOL)
+def _neg(x):
+    return -x
 
-    def run(retort, pair):
+
+def _dbl(x):
+    return x * 2
+
+
+CONV_RECIPES = {
+    "none": lambda: [],
+    "negate": lambda: [coercer(int, int, _neg)],
+    "double": lambda: [coercer(int, int, _dbl)],
+    "int->str": lambda: [coercer(int, str, str)],
+}
+
+
+def check_conversion_history(ctx, rng):
+    """Histories over (src, dst, per-call recipe, name): get_converter / convert on ONE ConversionRetort (or through the module-level
+    functions, which share one global retort) vs. the same probe on a fresh retort."""
+    import adaptix.conversion as conv_mod  # noqa: PLC0415
+
+    def mk_obj(src):
+        return src(1, 2) if src in (S1, D1) else src(1) if src in (M1, M2) else Rec(1, [Rec(2)])
+
+    def run(api, pair, rname, fname):
         src, dst = pair
-        c = attempt(retort.get_converter, src, dst)
-        if c.kind != "ok":
-            return ("err", type(c.exc).__name__)
-        obj = src(1, 2) if src in (S1, D1) else src(1) if src in (M1, M2) else Rec(1, [Rec(2)])
-        return outcome(attempt(c.value, obj))
-    recipe = [coercer(int, str, str)] if rng.random() < 0.5 else []
-    warmed = ConversionRetort(recipe=recipe)
-    for h in hist:
-        run(warmed, h)
-    got = run(warmed, probe)
-    want = run(ConversionRetort(recipe=recipe), probe)
-    ctx.evaluated(("conversion-history", tuple((a.__name__, b.__name__) for a, b in hist), (probe[0].__name__, probe[1].__name__), bool(recipe)))
+        recipe = CONV_RECIPES[rname]()
+        if api[1] == "get_converter":
+            c = attempt(api[0].get_converter, src, dst, recipe=recipe, name=fname)
+            if c.kind != "ok":
+                return ("err", type(c.exc).__name__)
+            return outcome(attempt(c.value, mk_obj(src)))
+        return outcome(attempt(api[0].convert, mk_obj(src), dst, recipe=recipe))
+
+    base_recipe = [coercer(int, str, str)] if rng.random() < 0.3 else []
+    use_module = rng.random() < 0.25
+    warmed = conv_mod if use_module else ConversionRetort(recipe=base_recipe)
+    steps = [(rng.choice(CONV_POOL), rng.choice(list(CONV_RECIPES)), rng.choice([None, None, "f"]), rng.choice(["get_converter", "convert"])) for _ in range(rng.randint(1, 6))]
+    # make confusable steps likely: the probe repeats an earlier (src, dst) with another recipe
+    pair, _, fname, how = rng.choice(steps)
+    probe = (pair, rng.choice(list(CONV_RECIPES)), fname, rng.choice(["get_converter", "convert"]))
+    for pr, rn, fn, how_ in steps:
+        run((warmed, how_), pr, rn, fn)
+    got = run((warmed, probe[3]), probe[0], probe[1], probe[2])
+    fresh = ConversionRetort(recipe=[] if use_module else base_recipe)
+    want = run((fresh, probe[3]), probe[0], probe[1], probe[2])
+    ctx.evaluated(("conversion-history", repr(steps), repr(probe), use_module))
     ctx.count("conversion_histories")
-    if not (got[0] == want[0] and (got[0] != "ok" or strict_eq(got[1], want[1]))):
-        ctx.violation("history-dependent-converter", f"after {hist} get_converter{probe} gives {got!r}, fresh retort {want!r}", {"history": repr(hist), "probe": repr(probe)})
+    if use_module:
+        ctx.count("conversion_histories_module_level")
+    if not (got[0] == want[0] and (got[0] != "ok" or strict_eq(got[1], want[1])) and (got[0] == "ok" or got[1:] == want[1:])):
+        ctx.violation("history-dependent-converter", f"after {[(p[0].__name__, p[1].__name__, r, n, h) for p, r, n, h in steps]} the probe {(probe[0][0].__name__, probe[0][1].__name__, *probe[1:])} "
+                                                     f"gives {got!r:.200}, a fresh retort {want!r:.200}", {"steps": repr(steps), "probe": repr(probe), "module_level": use_module})
 
 
 def check_lru_eviction(ctx, rng):
